@@ -635,7 +635,8 @@ static void check_case(Case &C, Tape &t)
 		stats.eval();
 		return;
 	}
-	if (C.bom_name && lib.err == 0 && ref.err == BR_ERR_X509_BAD_SERVER_NAME && known("bom-stripped-before-name-match")) {
+	// (the validator got past the name check: it accepts, or goes on to report a later defect of the chain)
+	if (C.bom_name && lib.err != BR_ERR_X509_BAD_SERVER_NAME && ref.err == BR_ERR_X509_BAD_SERVER_NAME && known("bom-stripped-before-name-match")) {
 		stats.known_finding("bom-stripped-before-name-match", "a leaf whose dNSName (or UTF8String CN) is the bytes EF BB BF followed by the expected server name (or by a '*.' pattern matching it) is ACCEPTED for that server name: "
 			"encode-UTF8 in asn1.t0 drops a leading U+FEFF before the comparison (and before the name element is reported)");
 		stats.excluded++;
@@ -654,6 +655,12 @@ static void check_case(Case &C, Tape &t)
 		else VF_CHECK(lib.key_type == BR_KEYTYPE_EC && lib.curve == k.curve && lib.a == k.q, "%s: the returned EC key is not the leaf's (curve %d vs %d)", desc.c_str(), lib.curve, k.curve);
 		VF_CHECK(lib.usages == ref.usages, "%s: returned usages %#x, the leaf's KeyUsage encodes %#x", desc.c_str(), lib.usages, ref.usages);
 		VF_CHECK(lib.cn_status == ref.cn_status && lib.dns_status == ref.dns_status, "%s: name element status CN %d / dNSName %d, expected %d / %d", desc.c_str(), lib.cn_status, lib.dns_status, ref.cn_status, ref.dns_status);
+		if (C.bom_name && known("bom-stripped-before-name-match")) {
+			// same listed finding, seen through the name elements: the reported string lacks the leading U+FEFF
+			bool stripped = false;
+			for (std::string *n : { &ref.cn, &ref.dns }) if (n->size() >= 3 && (uint8_t)(*n)[0] == 0xEF && (uint8_t)(*n)[1] == 0xBB && (uint8_t)(*n)[2] == 0xBF) { n->erase(0, 3); stripped = true; }
+			if (stripped) { stats.known_finding("bom-stripped-before-name-match", "the name element reported for a leaf name that starts with U+FEFF lacks that character (encode-UTF8 in asn1.t0 drops a leading BOM)"); stats.cls("known:bom-name"); }
+		}
 		if (ref.cn_status == 1) VF_CHECK(lib.cn == std::string(ref.cn.c_str()), "%s: CN element '%s', expected '%s'", desc.c_str(), lib.cn.c_str(), ref.cn.c_str());
 		if (ref.dns_status == 1) VF_CHECK(lib.dns == std::string(ref.dns.c_str()), "%s: dNSName element '%s', expected '%s'", desc.c_str(), lib.dns.c_str(), ref.dns.c_str());
 	}
